@@ -34,8 +34,10 @@ ASSUMPTIONS = [
     'an exception raised by write(b"") is tolerated as long as the stream stays exact',
 ]
 MIN_EVENTS = {
-    'quick': {'ledger_frames': 3000, 'ledger_credit_grants': 300, 'stream_checks': 150, 'raw_cases': 40},
-    'thorough': {'ledger_frames': 100000, 'ledger_credit_grants': 10000, 'stream_checks': 3000, 'raw_cases': 800},
+    'quick': {'ledger_frames': 3000, 'ledger_credit_grants': 300, 'stream_checks': 150, 'raw_cases': 40, 'raw_multi_cases': 20,
+              'max_credit_cases': 1},
+    'thorough': {'ledger_frames': 100000, 'ledger_credit_grants': 10000, 'stream_checks': 3000, 'raw_cases': 800,
+                 'raw_multi_cases': 300, 'max_credit_cases': 4},
 }
 CASE_TIMEOUT = 300
 
@@ -52,6 +54,12 @@ def plan(tier, seed):
         cases.append({'kind': 'b2b', 'seed': seed * 1000003 + i, 'tier': tier})
     for i in range(n_raw):
         cases.append({'kind': 'rawsrv' if i % 2 else 'rawcli', 'seed': seed * 1000003 + i, 'tier': tier})
+    for i in range(40 if tier == 'quick' else 600):
+        cases.append({'kind': 'rawmulti', 'seed': seed * 1000003 + i, 'tier': tier})
+    for i in range(1 if tier == 'quick' else 4):
+        cases.append({'kind': 'maxcredits', 'seed': seed * 1000003 + i, 'tier': tier, '_timeout': 600})
+    # the long case first, so that it overlaps with everything else
+    cases.sort(key=lambda c: c['kind'] != 'maxcredits')
     return cases
 
 
@@ -468,9 +476,211 @@ async def raw_case(case, r: R):
                 'bytes_b2r': total, 'bytes_r2b': total2, 'frames_from_bumble': ep.frames_in}
 
 
+async def raw_multi(case, r: R):
+    """Raw peer opens several channels whose CIDs are a permutation of the ones bumble will
+    allocate (so every table keyed by the wrong end's CID hits a *different live channel*),
+    some are closed by either side, then every survivor carries data both ways."""
+    from bumble import l2cap
+    from vlib import rig as vrig
+
+    rng = random.Random(case['seed'])
+    vrig.seed_entropy(case['seed'])
+    rg = vrig.Rig(2, seed=case['seed'], max_delay=rng.choice([0, 1, 3]), le_acl_len=[251, 251])
+    await rg.power_on()
+    bc, rc = await rg.connect_le(0, 1)
+    await rg.quiesce()
+    raw = vrig.RawPeer(rg, 1)
+    raw.take()
+    psm = 0x83
+    n = rng.choice([2, 2, 3, 4])
+    cids = [0x40 + i for i in range(n)]
+    perm = cids[:]
+    while perm == cids:
+        rng.shuffle(perm)
+    bspec = dict(mtu=rng.choice([64, 512]), mps=rng.choice([23, 64, 251]), max_credits=rng.choice([1, 2, 4]))
+    accepted = []
+    rg.devices[0].create_l2cap_server(spec=l2cap.LeCreditBasedChannelSpec(psm=psm, **bspec), handler=accepted.append)
+    eps = []
+    ident = [0x20]
+
+    def nid():
+        ident[0] = ident[0] % 255 + 1
+        return ident[0]
+
+    for my_cid in perm:
+        ep = RawCoc(raw, rc.handle, my_cid, 256, 64)
+        raw.send(rc.handle, rl.LE_SIG, rl.sig(rl.CODE_LE_COC_REQ, nid(), struct.pack('<HHHHH', psm, my_cid, 256, 64, 0)))
+        rsp = await raw.wait_for(lambda h, cid, p: cid == rl.LE_SIG and p[0] == rl.CODE_LE_COC_RSP)
+        if rsp is None:
+            r.bad('coc/raw/no-connection-response/le', 'no response to a connection request')
+            return
+        dcid, mtu, mps, cr, result = struct.unpack_from('<HHHHH', rsp[2][4:], 0)
+        if result != 0:
+            r.bad('coc/raw/refused/le/multi', f'request with scid {my_cid:#x} refused: result {result}')
+            return
+        ep.peer_cid, ep.peer_mtu, ep.peer_mps, ep.tx_credits = dcid, mtu, mps, cr
+        eps.append(ep)
+    r.ev('raw_cases')
+    r.ev('raw_multi_cases')
+    by_cid = {ep.my_cid: ep for ep in eps}
+    chans = {}
+    for ch in accepted:
+        chans[ch.destination_cid] = ch
+        ch.sink = (lambda ch_: (lambda d: by_cid[ch_.destination_cid].__dict__.setdefault('got_b', bytearray()).extend(d)))(ch)
+    crossed = sum(1 for ep in eps if ep.my_cid != ep.peer_cid)
+    disc_pending = {}
+
+    def handler(h, cid, p):
+        if cid in by_cid and cid >= 0x40:
+            by_cid[cid].on_frame(p)
+        elif cid == rl.LE_SIG:
+            code, idt = p[0], p[1]
+            if code == rl.CODE_LE_CREDIT:
+                c, k = struct.unpack_from('<HH', p, 4)
+                for ep in eps:
+                    if ep.peer_cid == c:
+                        ep.tx_credits += k
+            elif code == rl.CODE_DISC_REQ:
+                dcid, scid = struct.unpack_from('<HH', p, 4)
+                raw.send(rc.handle, rl.LE_SIG, rl.sig(rl.CODE_DISC_RSP, idt, struct.pack('<HH', dcid, scid)))
+                if dcid in by_cid:
+                    by_cid[dcid].closed = True
+            elif code == rl.CODE_DISC_RSP:
+                dcid, scid = struct.unpack_from('<HH', p, 4)
+                if scid in by_cid:
+                    by_cid[scid].closed = True
+
+    raw.handlers.append(handler)
+    # close a strict subset
+    to_close = rng.sample(eps, rng.randint(1, n - 1))
+    for ep in to_close:
+        how = rng.choice(['raw', 'bumble'])
+        if how == 'raw':
+            raw.send(rc.handle, rl.LE_SIG, rl.sig(rl.CODE_DISC_REQ, nid(), struct.pack('<HH', ep.peer_cid, ep.my_cid)))
+        else:
+            try:
+                await vloop.vwait(chans[ep.my_cid].disconnect(), 60)
+            except vloop.Hang:
+                r.bad('coc/raw/disconnect-hang/multi', 'disconnect() pending although the peer answered')
+        await rg.quiesce()
+    survivors = [ep for ep in eps if ep not in to_close]
+    for ep in survivors:
+        ch = chans[ep.my_cid]
+        total = rng.choice([50, 300, 1200])
+        data = make_data(ep.my_cid, 0, total)
+        ch.write(data)
+        turns = 0
+        while len(ep.rx) < total and turns < 5000:
+            await rg.quiesce(extra_turns=5)
+            turns += 1
+            if len(ep.rx) >= total:
+                break
+            if ep.granted <= 0:
+                ep.grant(rng.choice([1, 2, 5]))
+                r.ev('raw_grants')
+            else:
+                break
+        r.ev('stream_checks')
+        r.ev('oracle_evals')
+        if bytes(ep.rx) != data:
+            if len(ep.rx) < total:
+                r.bad('coc/progress/stalled/raw-peer-cid/le/acceptor/after-sibling-close',
+                      f'after closing sibling channels, bumble sent {len(ep.rx)}/{total} bytes on the channel to cid '
+                      f'{ep.my_cid:#x} (its own {ep.peer_cid:#x}) although it holds {ep.granted} credits; cids raw={perm}')
+            else:
+                r.bad('coc/stream/corrupt/raw/le/multi', f'{len(ep.rx)} bytes reassembled, {total} written')
+        # raw -> bumble
+        data2 = make_data(ep.my_cid + 1, 0, rng.choice([30, 400]))
+        frames = []
+        off = 0
+        while off < len(data2):
+            k = min(ep.peer_mtu, 200)
+            frames += ep.send_sdu(data2[off:off + k])
+            off += k
+        fi, idle = 0, 0
+        while fi < len(frames) and idle < 3:
+            if ep.tx_credits > 0:
+                raw.send(rc.handle, ep.peer_cid, frames[fi])
+                ep.tx_credits -= 1
+                fi += 1
+                idle = 0
+            else:
+                await rg.quiesce(extra_turns=5)
+                if ep.tx_credits <= 0:
+                    idle += 1
+        await rg.quiesce()
+        r.ev('stream_checks')
+        r.ev('oracle_evals')
+        got = bytes(getattr(ep, 'got_b', b''))
+        if fi < len(frames):
+            r.bad('coc/progress/no-credits-returned/le/multi', f'bumble stopped returning credits after {fi}/{len(frames)} frames')
+        elif got != data2:
+            r.bad('coc/stream/corrupt/raw-to-bumble/le/multi', f'bumble sink of the channel to cid {ep.my_cid:#x} has {len(got)} bytes, '
+                                                               f'sent {len(data2)} (delivered to a sibling channel?)')
+    rl.coc_ledger(rg.boundary_log, 0, r, tag='/raw')
+    for where, e in rg.exceptions:
+        r.bad('coc/exception-in-stack', f'{where}: {e}')
+    r.sig('rawmulti', tuple(perm), tuple(ep.my_cid for ep in to_close), tuple(sorted(bspec.items())))
+    r.sched.add(rg.schedule_signature)
+    r.evals()
+    r.sample = {'kind': 'rawmulti', 'raw_cids': perm, 'closed': [ep.my_cid for ep in to_close], 'bumble_spec': bspec}
+
+
+async def max_credits(case, r: R):
+    """A receiver that grants the protocol maximum of 65535 credits, and a sender that uses
+    more than 65535 frames: the credit counters cross every boundary up to the maximum."""
+    from bumble import l2cap
+    from vlib import rig as vrig
+    rng = random.Random(case['seed'])
+    vrig.seed_entropy(case['seed'])
+    rg = vrig.Rig(2, seed=case['seed'], max_delay=0, le_acl_len=[251, 251], le_acl_num=[64, 64])
+    await rg.power_on()
+    cc, pc = await rg.connect_le(0, 1)
+    acc = []
+    rg.devices[1].create_l2cap_server(spec=l2cap.LeCreditBasedChannelSpec(psm=0x85, mtu=64, mps=64, max_credits=65535),
+                                      handler=acc.append)
+    ch = await vloop.vwait(cc.create_l2cap_channel(spec=l2cap.LeCreditBasedChannelSpec(psm=0x85, mtu=64, mps=64, max_credits=8)))
+    await rg.quiesce()
+    got = bytearray()
+    acc[0].sink = got.extend
+    total_frames = 65535 + rng.randint(40, 400)
+    idle_at = {32767, 32768, 65534, 65535}
+    sent = bytearray()
+    for i in range(total_frames):
+        d = bytes([i & 0xFF])
+        ch.write(d)
+        sent += d
+        if i in idle_at or i % 4096 == 0:
+            # let the sender go idle exactly around the points where the receiver replenishes
+            await rg.quiesce(extra_turns=3)
+
+    async def done():
+        while len(got) < len(sent):
+            await asyncio.sleep(0.05)
+    try:
+        await vloop.vwait(done())
+    except vloop.Hang:
+        r.bad('coc/progress/stalled/le/max-credits',
+              f'{len(got)}/{len(sent)} bytes after T_v with a receiver granting 65535 credits; sender credits={ch.credits} '
+              f'receiver view={acc[0].peer_credits}')
+    r.ev('stream_checks')
+    r.ev('oracle_evals')
+    if bytes(got) != bytes(sent)[:len(got)]:
+        r.bad('coc/stream/corrupt/le/max-credits', 'received prefix differs')
+    rl.coc_ledger(rg.boundary_log, 0, r, tag='/max-credits')
+    r.ev('max_credit_cases')
+    r.sig('maxcredits', total_frames)
+    r.evals()
+    r.sample = {'kind': 'maxcredits', 'frames': total_frames}
+
+
 async def run_case(case, r: R):
     if case['kind'] == 'b2b':
         await b2b(case, r)
+    elif case['kind'] == 'rawmulti':
+        await raw_multi(case, r)
+    elif case['kind'] == 'maxcredits':
+        await max_credits(case, r)
     else:
         await raw_case(case, r)
 
